@@ -38,6 +38,21 @@ def fixed_scenarios():
     u3 = [("if", True, ("ex", var("nope")), [("include", Sx("unused_bad"), []), ("include", Sx("missing"), [])], [("text", "dead path ok")])]
     datas2 = [[["arr", ["a", [["s", "x"], ["s", "y"]]]], ["pn", ["s", "p"]]], [["arr", ["a", []]], ["pn", ["s", "missing"]]]]
     S.append({"partials": partials2, "templates": [u1, u2, u3], "datas": datas2})
+    # whatever a parsed template could memoise must depend on the data of the render: literal inputs with variable
+    # arguments, conditions, cycle values, loop attributes, partial arguments — rendered with data that differ in exactly those
+    w1 = [("out", (Sx("Hello, "), [("append", [var("a")])])), ("text", "|"), ("out", (I(10), [("plus", [var("n")]), ("times", [var("n")])])), ("text", "|"),
+          ("assign", "t", (I(10), [("minus", [var("n")])])), ("out", (var("t"), [])), ("text", "|"), ("out", (Sx("a-b-c"), [("split", [Sx("-")]), ("join", [var("a")])]))]
+    w2 = [("if", True, ("bin", I(2), "==", var("n")), [("text", "two")], [("text", "not two")]), ("text", "|"),
+          ("case", var("n"), [([I(1)], [("text", "one")]), ([var("k")], [("text", "k")])], [("text", "other")]), ("text", "|"),
+          ("cycle", None, [var("a"), Sx("fixed")]), ("cycle", None, [var("a"), Sx("fixed")]), ("text", "|"),
+          ("for", "x", ARR, var("n"), None, False, [("out", (var("x"), []))], [("text", "none")]), ("text", "|"),
+          ("for", "x", ("cnt", I(1), var("n")), None, None, False, [("out", (var("x"), []))], None), ("text", "|"),
+          ("render", Sx("p"), None, [("k", var("a"))]), ("include", Sx("p"), [("k", I(7))])]
+    w3 = [("out", (Sx("x"), [("append", [var("boom")])])), ("text", "never")]
+    datas3 = [[["a", ["s", "Alice"]], ["n", ["i", "1"]], ["k", ["i", "2"]], ["arr", ["a", [["s", "x"], ["s", "y"], ["s", "z"]]]]],
+              [["a", ["s", "Bob"]], ["n", ["i", "2"]], ["k", ["i", "2"]], ["arr", ["a", [["s", "p"], ["s", "q"]]]], ["boom", ["s", "B"]]],
+              [["a", ["i", "3"]], ["n", ["i", "3"]], ["k", ["i", "3"]], ["arr", ["a", []]]]]
+    S.append({"partials": partials2, "templates": [w1, w2, w3], "datas": datas3})
     return S
 
 
